@@ -7,6 +7,7 @@ Second extension round (end of the file; helpers in Lemmas/Median2.lean, Lemmas/
 method, the 2-D median, the `boundary` clauses, refusals and degenerate inputs.
 -/
 import PydlVerif.Lemmas.Reject
+import PydlVerif.Lemmas.Maxrej
 import PydlVerif.Lemmas.Interp
 import PydlVerif.Lemmas.Damp
 import PydlVerif.Lemmas.Median2
@@ -1390,5 +1391,222 @@ example : (1 ≤ 1 ∧ 1 + 1 ≤ 2) ∧ ext2 ([1, 2, 3, 4] : List ℚ) 2 2 (-1) 
   refine ⟨⟨by omega, by omega⟩, ?_, ?_, ?_, ?_⟩ <;> (unfold ext2 reflIdx; norm_num)
 
 end median2
+
+/-! ## djs_reject called WITH `maxrej` (third extension round)
+
+The property statement does not cover `maxrej`.  The theorems say what the block of the repository code guarantees:
+it NEVER limits the number of rejected points - a call with `maxrej` raises or returns exactly what the call without it
+returns (so every theorem above carries over to every call that returns), with the list of which calls return. -/
+section maxrej
+variable {K : Type} [Field K] [LinearOrder K] [IsStrictOrderedRing K] [FloorRing K]
+attribute [local instance] fieldScalar
+attribute [-instance] Scalar.instOfNat Scalar.instOfScientific
+
+/-- **a call with `maxrej` that returns, returns the result of the call without `maxrej`** - for every loop body
+(lines 380-427 are never executed), every `maxrej` / `groupdim` / `groupsize` / `groupbadpix`, every shape, every input.
+In particular "at most `maxrej` points are newly rejected" does NOT hold for the repository code. -/
+theorem maxrej_never_limits (sqrt : K → K) (body : Nat → List Nat → Nat → List K → Except String (List K))
+    (o : Opts K) (g : MaxrejOpts) (G : GroupOpts) (shape : List Nat) (data : List K) (model : Option (List K))
+    (outmask inmask : Option (List Bool)) (s : List K) (r : List Bool × Bool)
+    (h : djsRejectMaxrej sqrt body o g shape data model outmask inmask s = .ok r) :
+    djsRejectFull sqrt o G shape data model outmask inmask s = .ok r := by
+  rcases outmask with _ | om <;> rcases model with _ | mdl <;> rcases inmask with _ | im <;>
+    simp only [djsRejectMaxrej, djsRejectFull, djsReject, bind, Except.bind, pure, Except.pure, throw, throwThe,
+      MonadExceptOf.throw] at h ⊢ <;>
+    (try split_ifs at h ⊢) <;> (try (first | exact h | cases h))
+  all_goals
+    split at h
+    · cases h
+    · first
+      | cases h
+      | (split at h
+         · cases h
+         · rename_i b hb
+           rw [maxrejBlock_ok _ _ _ _ _ hb] at h
+           rw [← finishMask_badness]; exact h)
+
+/-- every call with `maxrej` that returns, returns the end of the routine applied to the UNLIMITED working array of the
+flattened data: `reject_mask_nd`, `finishMask_spec`, `qdone_iff_unchanged_full` apply to it as they are -/
+theorem maxrej_ok_is_rule (sqrt : K → K) (body : Nat → List Nat → Nat → List K → Except String (List K))
+    (o : Opts K) (g : MaxrejOpts) (shape : List Nat) (data mdl : List K)
+    (outmask inmask : Option (List Bool)) (s : List K) (r : List Bool × Bool)
+    (h : djsRejectMaxrej sqrt body o g shape data (some mdl) outmask inmask s = .ok r) :
+    ∃ px : List (Pix K), px.length = data.length ∧
+      r = finishMask { o with hasIn := inmask.isSome } px (px.map (badness sqrt { o with hasIn := inmask.isSome })) := by
+  rcases outmask with _ | om <;> rcases inmask with _ | im <;>
+    simp only [djsRejectMaxrej, bind, Except.bind, pure, Except.pure, throw, throwThe,
+      MonadExceptOf.throw] at h <;>
+    (try split_ifs at h)
+  all_goals
+    split at h
+    · cases h
+    · first
+      | (cases h; done)
+      | (split at h
+         · cases h
+         · rename_i b hb
+           rw [maxrejBlock_ok _ _ _ _ _ hb] at h
+           exact ⟨_, by simp, (Except.ok.inj h).symm⟩)
+
+/-- when the option checks pass and the block is skipped, the call with `maxrej` IS the call without it
+(equality of results including the refusals) -/
+theorem maxrej_ignored_when_skipped (sqrt : K → K) (body : Nat → List Nat → Nat → List K → Except String (List K))
+    (o : Opts K) (g : MaxrejOpts) (G : GroupOpts) (shape : List Nat) (data : List K) (model : Option (List K))
+    (outmask inmask : Option (List Bool)) (s : List K) (gg : List Int × PyArg)
+    (hc : maxrejChecks g shape = .ok gg) (hb : ∀ bad : List K, maxrejBlock body gg.1 shape bad = .ok bad) :
+    djsRejectMaxrej sqrt body o g shape data model outmask inmask s =
+      djsRejectFull sqrt o G shape data model outmask inmask s := by
+  rcases outmask with _ | om <;> rcases model with _ | mdl <;> rcases inmask with _ | im <;>
+    simp only [djsRejectMaxrej, djsRejectFull, djsReject, bind, Except.bind, pure, Except.pure, throw, throwThe,
+      MonadExceptOf.throw, hc, hb, finishMask_badness]
+
+/-- **1-D data (not empty): `maxrej` is ignored** whenever the option checks pass and no `groupdim` entry exceeds 1:
+the call is `djsReject`, the routine all earlier theorems are about -/
+theorem maxrej_1d_ignored (sqrt : K → K) (body : Nat → List Nat → Nat → List K → Except String (List K))
+    (o : Opts K) (g : MaxrejOpts) (G : GroupOpts) (data : List K) (model : Option (List K))
+    (outmask inmask : Option (List Bool)) (s : List K) (gg : List Int × PyArg) (hne : data ≠ [])
+    (hc : maxrejChecks g [data.length] = .ok gg) (hgd : ∀ x ∈ gg.1, x ≤ 1) :
+    djsRejectMaxrej sqrt body o g [data.length] data model outmask inmask s =
+      djsReject sqrt o data model outmask inmask s :=
+  maxrej_ignored_when_skipped sqrt body o g G [data.length] data model outmask inmask s gg hc
+    (fun bad => maxrejBlock_1d body gg.1 data.length (by simpa using hne) hgd bad)
+
+/-- **without `groupdim` `maxrej` is ignored for data of every shape** (`dimnum = [0]`, `range(0)`) -/
+theorem maxrej_nogroupdim_ignored (sqrt : K → K) (body : Nat → List Nat → Nat → List K → Except String (List K))
+    (o : Opts K) (g : MaxrejOpts) (G : GroupOpts) (shape : List Nat) (data : List K) (model : Option (List K))
+    (outmask inmask : Option (List Bool)) (s : List K) (gs : PyArg)
+    (hc : maxrejChecks g shape = .ok ([], gs)) :
+    djsRejectMaxrej sqrt body o g shape data model outmask inmask s =
+      djsRejectFull sqrt o G shape data model outmask inmask s :=
+  maxrej_ignored_when_skipped sqrt body o g G shape data model outmask inmask s ([], gs) hc
+    (fun bad => maxrejBlock_nogroupdim body shape bad)
+
+/-- **data with two or more dimensions and a non-empty `groupdim`: the call always raises** (a check in front, or
+Python's `max` / `range` on the N-D `dimnum`) -/
+theorem maxrej_nd_groupdim_raises (sqrt : K → K) (body : Nat → List Nat → Nat → List K → Except String (List K))
+    (o : Opts K) (g : MaxrejOpts) (shape : List Nat) (data mdl : List K)
+    (outmask inmask : Option (List Bool)) (s : List K) (gg : List Int × PyArg)
+    (hc : maxrejChecks g shape = .ok gg) (hgd : gg.1 ≠ []) (hs : 2 ≤ shape.length) :
+    ∃ e, djsRejectMaxrej sqrt body o g shape data (some mdl) outmask inmask s = .error e := by
+  cases h : djsRejectMaxrej sqrt body o g shape data (some mdl) outmask inmask s with
+  | error e => exact ⟨e, rfl⟩
+  | ok r =>
+    exfalso
+    rcases outmask with _ | om <;> rcases inmask with _ | im <;>
+      simp only [djsRejectMaxrej, bind, Except.bind, pure, Except.pure, throw, throwThe,
+        MonadExceptOf.throw, hc] at h <;>
+      (try split_ifs at h)
+    all_goals
+      split at h
+      · cases h
+      · rename_i b hb
+        obtain ⟨e, he⟩ := maxrejBlock_nd_raises body gg.1 shape hs hgd _
+        rw [he] at hb
+        cases hb
+
+/-- the option checks of lines 286-296: scalar `maxrej` alone passes (`groupsize = len(data)`); scalar `maxrej` with
+`groupdim` or `groupsize` → TypeError (`len()`); scalar `groupdim` → TypeError; lengths that differ → ValueError; equal
+lengths pass -/
+theorem maxrej_checks_clauses (shape : List Nat) (b : Bool) :
+    (∀ v n rest, shape = n :: rest → maxrejChecks ⟨.scalar v, none, none, b⟩ shape = .ok ([], .scalar n)) ∧
+    (∀ v d gs, maxrejChecks ⟨.scalar v, some d, gs, b⟩ shape = .error "TypeError") ∧
+    (∀ v sz, maxrejChecks ⟨.scalar v, none, some sz, b⟩ shape = .error "TypeError") ∧
+    (∀ mr v gs, maxrejChecks ⟨.seq mr, some (.scalar v), gs, b⟩ shape = .error "TypeError") ∧
+    (∀ mr gd gs, mr.length ≠ gd.length → maxrejChecks ⟨.seq mr, some (.seq gd), gs, b⟩ shape = .error "ValueError") ∧
+    (∀ mr gd n rest, shape = n :: rest → mr.length = gd.length →
+        maxrejChecks ⟨.seq mr, some (.seq gd), none, b⟩ shape = .ok (gd, .scalar n)) ∧
+    (∀ mr gd sz, mr.length = gd.length → mr.length = sz.length →
+        maxrejChecks ⟨.seq mr, some (.seq gd), some (.seq sz), b⟩ shape = .ok (gd, .seq sz)) ∧
+    (∀ mr sz, mr.length = sz.length → maxrejChecks ⟨.seq mr, none, some (.seq sz), b⟩ shape = .ok ([], .seq sz)) ∧
+    (∀ mr sz, mr.length ≠ sz.length → maxrejChecks ⟨.seq mr, none, some (.seq sz), b⟩ shape = .error "ValueError") := by
+  refine ⟨?_, ?_, ?_, ?_, ?_, ?_, ?_, ?_, ?_⟩
+  · rintro v n rest rfl; rfl
+  · intro v d gs; rfl
+  · intro v sz; rfl
+  · intro mr v gs; rfl
+  · intro mr gd gs h
+    simp [maxrejChecks, pyLen, bind, Except.bind, pure, Except.pure, throw, throwThe, MonadExceptOf.throw, h]
+  · rintro mr gd n rest rfl h
+    simp [maxrejChecks, pyLen, bind, Except.bind, pure, Except.pure, h]
+  · intro mr gd sz h1 h2
+    simp [maxrejChecks, pyLen, bind, Except.bind, pure, Except.pure, h1, ← h2]
+  · intro mr sz h
+    simp [maxrejChecks, pyLen, bind, Except.bind, pure, Except.pure, h]
+  · intro mr sz h
+    simp [maxrejChecks, pyLen, bind, Except.bind, pure, Except.pure, throw, throwThe, MonadExceptOf.throw, h]
+
+/-- `groupbadpix`: the group starts `(-1*np.diff(np.insert(badness == 0, 0, 1)) == 1).nonzero()` are empty for every
+working array (numpy's `diff` of booleans is `!=`, `-1*bool` is never `1`): even if the body ran, no run of bad pixels
+would ever form a group -/
+theorem groupbadpix_no_groups (bad : List K) : groupsLower bad = [] := groupsLower_nil bad
+
+end maxrej
+
+/-! ## skymask on whole images (third extension round) -/
+section sky2
+variable {K : Type} [Field K] [LinearOrder K] [IsStrictOrderedRing K] [FloorRing K]
+attribute [local instance] fieldScalar
+attribute [-instance] Scalar.instOfNat Scalar.instOfScientific
+
+theorem skymaskRow_length (invvar : List K) (ormask : Option (List Int)) (g : Nat)
+    (hlen : ∀ om, ormask = some om → om.length = invvar.length) :
+    (skymaskRow invvar ormask g).length = invvar.length := by
+  apply Nat.le_antisymm
+  · unfold skymaskRow
+    rw [List.length_zipWith]
+    exact Nat.min_le_left _ _
+  · by_contra hlt
+    have hi : (skymaskRow invvar ormask g).length < invvar.length := by omega
+    obtain ⟨h1, h0⟩ := skymask_dilate invvar ormask g hlen _ hi
+    by_cases hf : ∃ j, (skymaskRow invvar ormask g).length ≤ j + g ∧ j ≤ (skymaskRow invvar ormask g).length + g ∧ FlaggedAt ormask j
+    · have := h1 hf
+      rw [List.getElem?_eq_none (Nat.le_refl _)] at this
+      cases this
+    · have := h0 hf
+      rw [List.getElem?_eq_none (Nat.le_refl _)] at this
+      cases this
+
+/-- **skymask on the whole image**: a 2-D `invvar` (rows `invvar[r]`, `ormask` of the same shape or `None`) is accepted, the
+result has the same rows, and in EVERY row `r`, for EVERY `ngrow` (zero and negative values mean no dilation), pixel `i`
+becomes 0 exactly when a pixel `j` of the SAME row with `|i-j| ≤ ngrow` has BADSKYCHI or REDMONSTER set, and keeps its
+inverse variance otherwise - rows do not leak into each other.  An array that is not 2-D is refused (ValueError). -/
+theorem skymask_image (shape : List Nat) (invvar : List (List K)) (ormask : Option (List (List Int))) (ngrow : Int) :
+    (shape.length ≠ 2 → skymaskImage shape invvar ormask ngrow = .error "ValueError") ∧
+    (shape.length = 2 →
+      (∀ oms, ormask = some oms → oms.length = invvar.length ∧
+        ∀ r (hr : r < invvar.length) (hr' : r < oms.length), oms[r].length = invvar[r].length) →
+      ∃ out, skymaskImage shape invvar ormask ngrow = .ok out ∧ out.length = invvar.length ∧
+        ∀ r (hr : r < invvar.length), ∃ row, out[r]? = some row ∧ row.length = invvar[r].length ∧
+          ∀ i (hi : i < invvar[r].length),
+            ((∃ j, i ≤ j + ngrow.toNat ∧ j ≤ i + ngrow.toNat ∧ FlaggedAt (ormask.map (fun oms => oms.getD r [])) j) →
+              row[i]? = some 0) ∧
+            ((¬ ∃ j, i ≤ j + ngrow.toNat ∧ j ≤ i + ngrow.toNat ∧ FlaggedAt (ormask.map (fun oms => oms.getD r [])) j) →
+              row[i]? = some invvar[r][i])) := by
+  constructor
+  · intro h
+    simp [skymaskImage, h, throw, throwThe, MonadExceptOf.throw]
+  · intro h hlen
+    refine ⟨skymaskRows invvar ormask ngrow, by simp [skymaskImage, h, pure, Except.pure], ?_, ?_⟩
+    · cases ormask with
+      | none => simp [skymaskRows]
+      | some oms => simp [skymaskRows, List.length_zipWith, (hlen oms rfl).1]
+    · intro r hr
+      cases ormask with
+      | none =>
+        refine ⟨skymaskRow invvar[r] none ngrow.toNat, by simp [skymaskRows, List.getElem?_eq_getElem hr], ?_, ?_⟩
+        · exact skymaskRow_length _ _ _ (fun om h => by cases h)
+        · intro i hi
+          exact skymask_dilate invvar[r] none ngrow.toNat (fun om h => by cases h) i hi
+      | some oms =>
+        obtain ⟨h1, h2⟩ := hlen oms rfl
+        have hr' : r < oms.length := by omega
+        refine ⟨skymaskRow invvar[r] (some oms[r]) ngrow.toNat, ?_, ?_, ?_⟩
+        · simp [skymaskRows, List.getElem?_zipWith, List.getElem?_eq_getElem hr, List.getElem?_eq_getElem hr']
+        · exact skymaskRow_length _ _ _ (fun om h => by cases h; exact h2 r hr hr')
+        · intro i hi
+          have := skymask_dilate invvar[r] (some oms[r]) ngrow.toNat
+            (fun om h => by cases h; exact h2 r hr hr') i hi
+          simpa [List.getD_eq_getElem?_getD, List.getElem?_eq_getElem hr'] using this
+end sky2
 
 end PydlVerif.C17
